@@ -104,3 +104,60 @@ func GNilMap() interface{} { return vNilMap }
 
 //go:noinline
 func GU8() interface{} { return vU8 }
+
+// Heap-allocated originals that nothing but the variable references (built at init time by a
+// non-inlined constructor): if a mock drops the only GC-visible reference to the original, a
+// collection frees it and the restored value dangles.
+var (
+	vHeapMap   map[string]int
+	vHeapPtr   *S
+	vHeapSlice []int
+	vHeapIface interface{}
+)
+
+//go:noinline
+func mkS(a int, b string) *S { return &S{A: a, B: b, c: 0.5} }
+
+//go:noinline
+func mkMap(k string, v int) map[string]int { m := make(map[string]int, 4); m[k] = v; m[k+"2"] = v + 1; return m }
+
+//go:noinline
+func mkSlice(n int) []int {
+	s := make([]int, 0, n)
+	for i := 0; i < n; i++ {
+		s = append(s, 100+i)
+	}
+	return s
+}
+
+func init() {
+	vHeapMap = mkMap("heap", 41)
+	vHeapPtr = mkS(42, "heap")
+	vHeapSlice = mkSlice(5)
+	vHeapIface = mkS(43, "iface")
+}
+
+func PHeapMap() *map[string]int  { return &vHeapMap }
+func PHeapPtr() **S              { return &vHeapPtr }
+func PHeapSlice() *[]int         { return &vHeapSlice }
+func PHeapIface() *interface{}   { return &vHeapIface }
+
+//go:noinline
+func GHeapMap() interface{} { return vHeapMap }
+
+//go:noinline
+func GHeapPtr() interface{} { return vHeapPtr }
+
+//go:noinline
+func GHeapSlice() interface{} { return vHeapSlice }
+
+//go:noinline
+func GHeapIface() interface{} { return vHeapIface }
+
+// ResetHeap rebuilds the heap originals (fresh objects nothing else references).
+func ResetHeap() {
+	vHeapMap = mkMap("heap", 41)
+	vHeapPtr = mkS(42, "heap")
+	vHeapSlice = mkSlice(5)
+	vHeapIface = mkS(43, "iface")
+}
